@@ -170,7 +170,10 @@ pub fn history_body(plan: &Plan, out: Arc<Mutex<Option<HistoryOutcome>>>) {
                     env.flush();
                     unflushed = 0;
                     maintenance += 1;
-                    if has(Extra::NoGarbage) {
+                    // (the reopen-and-scan oracle is expensive: every flush of short plans, a seeded
+                    // third of the flushes plus the last one in long plans)
+                    let last_flush = !plan.ops[i + 1..].iter().any(|o| matches!(o, Op::Flush));
+                    if has(Extra::NoGarbage) && (plan.ops.len() < 16 || last_flush || (plan.seed.wrapping_add(i as u64 * 7919) % 3 == 0)) {
                         check_no_garbage(&mut env, &ctx);
                     }
                 }
@@ -343,6 +346,7 @@ pub fn run_history(plan: &Plan) -> RunResult {
         None => {}
     }
     add_end_violation(&rep, &mut violations);
+    drop_echoes(&mut violations);
     merge_ctx_counters(&rep, &mut stats);
     stats.signature = layout ^ rep.sched_hash.rotate_left(17);
     stats.nontrivial = maintenance > 0;
@@ -424,12 +428,20 @@ fn blocked_summary(rep: &sim::SimReport) -> Vec<String> {
 /// separately.
 pub fn push_panic_violations(panics: &[rt::core::PanicRec], violations: &mut Vec<Violation>, context: &str) {
     for (i, p) in panics.iter().enumerate() {
-        if i > 0 && p.message.contains("PoisonError") {
+        if i > 0 && (p.message.contains("PoisonError") || p.message.contains("Canceled")) {
             continue;
         }
         let class = format!("panic:{}:{}", file_of(&p.location), stem(&p.message));
         if !violations.iter().any(|v| v.class == class) {
             violations.push(Violation { class, detail: format!("[{context}] thread {} panicked at {}: {}", p.role, p.location, rt::core::truncate(&p.message, 300)) });
         }
+    }
+}
+
+/// A query that is cancelled because the worker executing it panicked is the echo of that panic,
+/// which is reported under its own class.
+pub fn drop_echoes(violations: &mut Vec<Violation>) {
+    if violations.iter().any(|v| v.class.starts_with("panic:") || v.class.starts_with("hang_after_panic:")) {
+        violations.retain(|v| !v.class.starts_with("read_failed:Canceled"));
     }
 }
